@@ -16,7 +16,13 @@ REPO = os.environ.get("VERIF_REPO", "/repo")
 BUILD = os.path.join(VERIF, ".build")
 COQ = os.path.join(VERIF, "coq")
 THEORIES = os.path.join(COQ, "theories")
-TARGET = os.path.join(BUILD, "target")
+# VERIF_REPO (development aid, unset in registered commands): run the checks against a scratch
+# copy of the sources (a seeded change) without touching /repo; builds then go to their own
+# target directory and a copy of the harness crate whose path dependency points there.
+ALT = os.path.abspath(REPO) != "/repo"
+_TAG = hashlib.sha1(os.path.abspath(REPO).encode()).hexdigest()[:8]
+TARGET = os.path.join(BUILD, "target-alt-" + _TAG) if ALT else os.path.join(BUILD, "target")
+HARNESS = os.path.join(BUILD, "harness-alt-" + _TAG) if ALT else os.path.join(VERIF, "harness")
 VH = os.path.join(TARGET, "debug", "vh")
 ROCFL_BIN = os.path.join(TARGET, "release", "rocfl")
 CARGO_ENV = dict(os.environ, CARGO_NET_OFFLINE="true", CARGO_TERM_COLOR="never")
@@ -67,7 +73,16 @@ def repo_fingerprint():
 
 def build_harness():
     """(re)build the harness against /repo's current working tree (debug: overflow checks on)"""
-    hdir = os.path.join(VERIF, "harness")
+    hdir = HARNESS
+    if ALT:
+        src = os.path.join(VERIF, "harness")
+        shutil.rmtree(os.path.join(hdir, "src"), ignore_errors=True)
+        os.makedirs(os.path.join(hdir, ".cargo"), exist_ok=True)
+        shutil.copytree(os.path.join(src, "src"), os.path.join(hdir, "src"))
+        toml = open(os.path.join(src, "Cargo.toml")).read().replace('path = "/repo"', 'path = "%s"' % os.path.abspath(REPO))
+        open(os.path.join(hdir, "Cargo.toml"), "w").write(toml)
+        open(os.path.join(hdir, ".cargo", "config.toml"), "w").write(
+            '[net]\noffline = true\n[build]\ntarget-dir = "%s"\n' % TARGET)
     lock = os.path.join(hdir, "Cargo.lock")
     if not os.path.exists(lock):
         shutil.copy(os.path.join(REPO, "Cargo.lock"), lock)
@@ -241,9 +256,82 @@ def _coq_run_file(args):
     return rc, out
 
 
-def coq_eval(name, imports, terms, batch=250, scopes=("N_scope",)):
+def _split_let(term):
+    """`(let x := BODY in REST)` / `let x := BODY in REST` -> (x, BODY, REST) or None.
+    Scans with parenthesis depth and string-literal state; `""` inside a literal toggles twice."""
+    t = term.strip()
+    while t.startswith("(") and _matching_paren(t, 0) == len(t) - 1:
+        t = t[1:-1].strip()
+    m = re.match(r"let\s+([A-Za-z_][A-Za-z_0-9']*)\s*:=\s*", t)
+    if not m:
+        return None
+    i, depth, instr, lets = m.end(), 0, False, 0
+    n = len(t)
+    while i < n:
+        c = t[i]
+        if c == '"':
+            instr = not instr
+        elif not instr:
+            if c in "([{":
+                depth += 1
+            elif c in ")]}":
+                depth -= 1
+            elif depth == 0 and c in " \n":
+                # nested `let ... in` / `match ... end` at depth 0 are not generated without parentheses,
+                # but count nested lets to stay correct if they are
+                if t.startswith("let ", i + 1):
+                    lets += 1
+                elif t.startswith("in ", i + 1) or t.startswith("in\n", i + 1) or t.startswith("in(", i + 1):
+                    if lets == 0:
+                        return m.group(1), t[m.end():i].strip(), t[i + 3:].strip()
+                    lets -= 1
+        i += 1
+    return None
+
+
+def _matching_paren(t, start):
+    depth, instr = 0, False
+    for i in range(start, len(t)):
+        c = t[i]
+        if c == '"':
+            instr = not instr
+        elif not instr:
+            if c == "(":
+                depth += 1
+            elif c == ")":
+                depth -= 1
+                if depth == 0:
+                    return i
+    return -1
+
+
+def _hoisted(term, k):
+    """Coq text evaluating `term` whose leading lets became Definitions inside a module: the
+    elaboration of a huge let-bound literal that the body mentions many times is super-linear
+    (measured: 93 s elaboration vs 0.01 s evaluation for one C19 case), constants are not."""
+    defs = []
+    t = term
+    while True:
+        sp = _split_let(t)
+        if sp is None:
+            break
+        defs.append((sp[0], sp[1]))
+        t = sp[2]
+    if not defs:
+        return "Eval vm_compute in (%s).\n" % term
+    out = ["Module Case%d." % k]
+    for x, body in defs:
+        out.append("Definition %s := %s." % (x, body))
+    out.append("Definition result__ := %s." % t)
+    out.append("End Case%d." % k)
+    out.append("Eval vm_compute in Case%d.result__." % k)
+    return "\n".join(out) + "\n"
+
+
+def coq_eval(name, imports, terms, batch=250, scopes=("N_scope",), hoist_lets=False):
     """Evaluate each Coq term with vm_compute inside the development; returns the printed
-    values as strings (whitespace-normalised), in order.  Raises BuildError if coqc fails."""
+    values as strings (whitespace-normalised), in order.  Raises BuildError if coqc fails.
+    hoist_lets: leading `let x := .. in` of a term are turned into module-local Definitions."""
     d = os.path.join(BUILD, "cases")
     os.makedirs(d, exist_ok=True)
     files = []
@@ -255,8 +343,8 @@ def coq_eval(name, imports, terms, batch=250, scopes=("N_scope",)):
             for s in scopes:
                 f.write("Open Scope %s.\n" % s)
             f.write("Set Printing Width 2000000.\nSet Printing Depth 1000000.\n")
-            for t in chunk:
-                f.write("Eval vm_compute in (%s).\n" % t)
+            for k, t in enumerate(chunk):
+                f.write(_hoisted(t, k) if hoist_lets else "Eval vm_compute in (%s).\n" % t)
         files.append((path, len(chunk)))
     results = []
     with concurrent.futures.ThreadPoolExecutor(max_workers=NPROC) as ex:
@@ -273,6 +361,10 @@ def coq_eval(name, imports, terms, batch=250, scopes=("N_scope",)):
                 os.remove(path[:-2] + ext)
             except OSError:
                 pass
+        try:
+            os.remove(os.path.join(os.path.dirname(path), "." + os.path.basename(path)[:-2] + ".aux"))
+        except OSError:
+            pass
     return results
 
 
